@@ -208,6 +208,7 @@ theorem tagjob_publish_sound (s : St) (st : Started) (name : String) (snap ot : 
     (T0 T : Nat → Bool)
     (hw : TagsWF s)
     (hj : s.jTag = some (name, snap, held)) (ht : sget s.tags name = some ot) (hd : ot.defn = snap.defn)
+    (hg : ot.gen = snap.gen)  -- CHANGED (gen): the tag is still the incarnation the job was started for
     -- what the snapshot had decided was correct when the job started
     (hsnap : ∀ id, id < s.next → id ∉ snap.unc → (id ∈ snap.mat ↔ T0 id = true))
     -- the search answered exactly for the streams it was asked about
@@ -223,7 +224,7 @@ theorem tagjob_publish_sound (s : St) (st : Started) (name : String) (snap ot : 
     rcases Decidable.em (T id = T0 id) with h | h
     · exact h
     · exact absurd (hcov t' h' id hid h) hnu
-  rw [MgrTags.step_tagDone_mat s st name snap ot held result hj ht hd t' h', hT]
+  rw [MgrTags.step_tagDone_mat s st name snap ot held result hj ht hd hg t' h', hT]
   simp only [MgrTags.mem_union, MgrTags.mem_diff, MgrTags.mem_ofList, hres]
   by_cases hu : id ∈ snap.unc
   · simp [hu]
